@@ -17,6 +17,10 @@ CONSTANTS SNames = {"a", "b"}
           Ranges <- MC_Ranges
           TwoBlocks = TRUE
           W = 7200000
+          KindSet = {"tsdb", "bucket", "proxy"}
+          PromOpts <- MC_PromOptsFew
+          TLabel = "r"
+          TenantIds = {"x", "e"}
 INVARIANTS C08_ExtLabelsOverride C08_ContradictionEmpty C08_AllContradictedNothing C08_PresentRefines
            C07_Covered C07_ReplicaLabelsDropped
 CHECK_DEADLOCK FALSE
